@@ -22,8 +22,10 @@ for pid in PROPS:
     mod.run(rep, prog, 'quick')
     rules = {}
     for o in rep.obs:
-        r = rules.setdefault(o['rule'], {'min': 0, 'keys': []})
+        r = rules.setdefault(o['rule'], {'min': 0, 'keys': [], 'max_unknown': 0, 'unknown_keys': []})
         r['min'] += 1
+        if o['verdict'] == 'UNKNOWN':
+            r['max_unknown'] += 1; r['unknown_keys'].append(o['key'])
         if o['verdict'] == PROVEN and not o['rule'].startswith(COUNT_ONLY):
             r['keys'].append(o['key'])
     for rid, r in rules.items():
